@@ -1,6 +1,5 @@
-(* C17: the zero-padded cross smoothing of mode 'sobel' / 'prewitt' keeps affine functions exact at
-   lattice points that are at least two samples away from the boundary (D = 2, 3): all second
-   derivatives of an affine function vanish there; first derivatives are exact one sample away. *)
+(* C17: every derivative mode of the stencil model (forward_central_backward, and 'sobel' / 'prewitt' with their
+   replicate-padded cross smoothing) is exact on affine functions at every lattice point, in any dimension. *)
 From Coq Require Import ZArith List Field Ring Lia Bool.
 From DV Require Import Base.Field Base.FieldFacts Base.LinAlg Model.Losses Model.RegStencil
   Proofs.C16Lists Proofs.C17Stencil.
@@ -23,112 +22,40 @@ Proof.
   - replace (1 + (1 + 1) : K) with (@of_pos K 3) by (cbn [of_pos]; ring). apply Kc.
 Qed.
 
-Ltac sm sh w H e :=
-  match type of H with
-  | affOn _ (inR ?R) ?f ?c ?a =>
-      let H' := fresh "H" in
-      assert (H' : affOn K (inR (shrink e R)) (smooth sh w e f) c a)
-        by (eapply smooth_affOn; [.. | exact H]; solve [assumption | cbn; lia]);
-      clear H; rename H' into H
-  end.
-Ltac df sh h H d :=
-  match type of H with
-  | affOn _ (inR ?R) ?f ?c ?a =>
-      let H' := fresh "H" in
-      assert (H' : affOn K (inR (shrink d R)) (fd sh h d f) (nth d a 0 / h) [])
-        by (eapply fd_affOn; [.. | exact H]; solve [assumption | cbn; lia]);
-      clear H; rename H' into H
-  end.
-Ltac start sh c a H :=
-  assert (H : affOn K (inR (full sh)) (aff c a) c a) by (intros j _; reflexivity).
-Ltac finish1 H pt a :=
-  etransitivity; [apply (H pt); cbn; lia | unfold aff, a; cbn [lin nth]; rewrite ?(lin_nil_l K); rewrite ?(Fdiv_def Kf); ring].
-Ltac finish H pt :=
-  etransitivity; [apply (H pt); cbn; lia | unfold aff; cbn [lin nth]; rewrite ?(lin_nil_l K); rewrite ?(Fdiv_def Kf); ring].
+Definition dstep_weight_form (m : dmode) sh h d (f : idx -> K) :
+  m <> MFcb -> dstep m sh h d f = fd sh h d (smooth_others sh (smooth_weight m) d f).
+Proof. intro Hm. destruct m; try contradiction; reflexivity. Qed.
 
-(* ---------------- D = 2 ---------------- *)
-Section D2.
-Variables (nx ny x y : Z) (hx hy c a0 a1 : K).
-Hypothesis Hx : (2 <= x <= nx - 3)%Z.
-Hypothesis Hy : (2 <= y <= ny - 3)%Z.
-Hypothesis Hhx : hx <> 0.
-Hypothesis Hhy : hy <> 0.
-Let sh := [nx; ny].
-Let sp := [hx; hy].
-Let a := [a0; a1].
-
-Lemma sobel2_interior m : m <> MFcb ->
-  d2 m sh sp 0 0 (aff c a) [x; y] = 0 /\ d2 m sh sp 0 1 (aff c a) [x; y] = 0 /\
-  d2 m sh sp 1 0 (aff c a) [x; y] = 0 /\ d2 m sh sp 1 1 (aff c a) [x; y] = 0.
+(* every derivative mode differentiates affine functions exactly, at EVERY point of a lattice of any dimension *)
+Lemma dstep_aff m sh (h : K) d c (a : list K) (i : idx) :
+  h <> 0 -> (d < length i)%nat -> dstep m sh h d (aff c a) i = nth d a 0 / h.
 Proof.
-  intro Hm. pose proof (weight_nz m) as Hw. set (w := smooth_weight m) in *.
-  assert (E : forall d h f, dstep m sh h d f = fd sh h d (smooth_others sh w d f)).
-  { intros. destruct m; try contradiction; reflexivity. }
-  unfold d2. rewrite !E. clear E.
-  repeat split.
-  - start sh c a H. sm sh w H 1%nat. df sh hx H 0%nat. sm sh w H 1%nat. df sh hx H 0%nat. finish H [x; y].
-  - start sh c a H. sm sh w H 1%nat. df sh hx H 0%nat. sm sh w H 0%nat. df sh hy H 1%nat. finish H [x; y].
-  - start sh c a H. sm sh w H 1%nat. df sh hx H 0%nat. sm sh w H 0%nat. df sh hy H 1%nat. finish H [x; y].
-  - start sh c a H. sm sh w H 0%nat. df sh hy H 1%nat. sm sh w H 0%nat. df sh hy H 1%nat. finish H [x; y].
+  intros Hh Hd. destruct m; cbn [dstep]; [apply (fd_aff K Kf Kc); assumption| |];
+    apply (fd_slope K Kf Kc); try assumption; unfold smooth_others;
+    apply (fold_smooth_slope K Kf); [exact (weight_nz MSobel) | apply (aff_slope K Kf) | exact (weight_nz MPrewitt) | apply (aff_slope K Kf)].
 Qed.
 
-Lemma sobel2_d1_interior m : m <> MFcb ->
-  d1 m sh sp 0 (aff c a) [x; y] = a0 / hx /\ d1 m sh sp 1 (aff c a) [x; y] = a1 / hy.
+(* ... and maps a function that is constant on the points of one length to zero *)
+Lemma dstep_const m sh (h : K) d (g : idx -> K) v (i : idx) :
+  (forall j, length j = length i -> g j = v) -> dstep m sh h d g i = 0.
 Proof.
-  intro Hm. pose proof (weight_nz m) as Hw. set (w := smooth_weight m) in *.
-  assert (E : forall d h f, dstep m sh h d f = fd sh h d (smooth_others sh w d f)).
-  { intros. destruct m; try contradiction; reflexivity. }
-  unfold d1. rewrite !E. clear E. split.
-  - start sh c a H. sm sh w H 1%nat. df sh hx H 0%nat. finish1 H [x; y] a.
-  - start sh c a H. sm sh w H 0%nat. df sh hy H 1%nat. finish1 H [x; y] a.
-Qed.
-End D2.
-
-(* ---------------- D = 3 ---------------- *)
-Section D3.
-Variables (nx ny nz x y z : Z) (hx hy hz c a0 a1 a2 : K).
-Hypothesis Hx : (2 <= x <= nx - 3)%Z.
-Hypothesis Hy : (2 <= y <= ny - 3)%Z.
-Hypothesis Hz : (2 <= z <= nz - 3)%Z.
-Hypothesis Hhx : hx <> 0.
-Hypothesis Hhy : hy <> 0.
-Hypothesis Hhz : hz <> 0.
-Let sh := [nx; ny; nz].
-Let sp := [hx; hy; hz].
-Let a := [a0; a1; a2].
-
-Lemma sobel3_interior m : m <> MFcb -> forall d e, (d < 3)%nat -> (e < 3)%nat ->
-  d2 m sh sp d e (aff c a) [x; y; z] = 0.
-Proof.
-  intros Hm d e Hd He. pose proof (weight_nz m) as Hw. set (w := smooth_weight m) in *.
-  assert (E : forall d h f, dstep m sh h d f = fd sh h d (smooth_others sh w d f)).
-  { intros. destruct m; try contradiction; reflexivity. }
-  unfold d2. rewrite !E. clear E.
-  assert (Hc : (d = 0 \/ d = 1 \/ d = 2)%nat) by lia.
-  assert (Hc' : (e = 0 \/ e = 1 \/ e = 2)%nat) by lia.
-  destruct Hc as [-> | [-> | ->]], Hc' as [-> | [-> | ->]]; cbn [Nat.min Nat.max].
-  - start sh c a H. sm sh w H 1%nat. sm sh w H 2%nat. df sh hx H 0%nat. sm sh w H 1%nat. sm sh w H 2%nat. df sh hx H 0%nat. finish H [x; y; z].
-  - start sh c a H. sm sh w H 1%nat. sm sh w H 2%nat. df sh hx H 0%nat. sm sh w H 0%nat. sm sh w H 2%nat. df sh hy H 1%nat. finish H [x; y; z].
-  - start sh c a H. sm sh w H 1%nat. sm sh w H 2%nat. df sh hx H 0%nat. sm sh w H 0%nat. sm sh w H 1%nat. df sh hz H 2%nat. finish H [x; y; z].
-  - start sh c a H. sm sh w H 1%nat. sm sh w H 2%nat. df sh hx H 0%nat. sm sh w H 0%nat. sm sh w H 2%nat. df sh hy H 1%nat. finish H [x; y; z].
-  - start sh c a H. sm sh w H 0%nat. sm sh w H 2%nat. df sh hy H 1%nat. sm sh w H 0%nat. sm sh w H 2%nat. df sh hy H 1%nat. finish H [x; y; z].
-  - start sh c a H. sm sh w H 0%nat. sm sh w H 2%nat. df sh hy H 1%nat. sm sh w H 0%nat. sm sh w H 1%nat. df sh hz H 2%nat. finish H [x; y; z].
-  - start sh c a H. sm sh w H 1%nat. sm sh w H 2%nat. df sh hx H 0%nat. sm sh w H 0%nat. sm sh w H 1%nat. df sh hz H 2%nat. finish H [x; y; z].
-  - start sh c a H. sm sh w H 0%nat. sm sh w H 2%nat. df sh hy H 1%nat. sm sh w H 0%nat. sm sh w H 1%nat. df sh hz H 2%nat. finish H [x; y; z].
-  - start sh c a H. sm sh w H 0%nat. sm sh w H 1%nat. df sh hz H 2%nat. sm sh w H 0%nat. sm sh w H 1%nat. df sh hz H 2%nat. finish H [x; y; z].
+  intro Hg. destruct m; cbn [dstep].
+  - apply (fd_const K Kf) with (v := v); apply Hg; rewrite ?shift_length; reflexivity.
+  - apply (fd_const K Kf) with (v := v); unfold smooth_others;
+      apply (fold_smooth_const K Kf sh _ d _ g v (length i) (weight_nz MSobel) Hg); rewrite ?shift_length; reflexivity.
+  - apply (fd_const K Kf) with (v := v); unfold smooth_others;
+      apply (fold_smooth_const K Kf sh _ d _ g v (length i) (weight_nz MPrewitt) Hg); rewrite ?shift_length; reflexivity.
 Qed.
 
-Lemma sobel3_d1_interior m : m <> MFcb ->
-  d1 m sh sp 0 (aff c a) [x; y; z] = a0 / hx /\ d1 m sh sp 1 (aff c a) [x; y; z] = a1 / hy /\
-  d1 m sh sp 2 (aff c a) [x; y; z] = a2 / hz.
+Lemma d1_aff m sh (sp : list K) d c (a : list K) (i : idx) :
+  hs sp d <> 0 -> (d < length i)%nat -> d1 m sh sp d (aff c a) i = nth d a 0 / hs sp d.
+Proof. intros. unfold d1. apply dstep_aff; assumption. Qed.
+
+Lemma d2_aff m sh (sp : list K) d e c (a : list K) (i : idx) :
+  hs sp (Nat.min d e) <> 0 -> (Nat.min d e < length i)%nat -> d2 m sh sp d e (aff c a) i = 0.
 Proof.
-  intro Hm. pose proof (weight_nz m) as Hw. set (w := smooth_weight m) in *.
-  assert (E : forall d h f, dstep m sh h d f = fd sh h d (smooth_others sh w d f)).
-  { intros. destruct m; try contradiction; reflexivity. }
-  unfold d1. rewrite !E. clear E. repeat split.
-  - start sh c a H. sm sh w H 1%nat. sm sh w H 2%nat. df sh hx H 0%nat. finish1 H [x; y; z] a.
-  - start sh c a H. sm sh w H 0%nat. sm sh w H 2%nat. df sh hy H 1%nat. finish1 H [x; y; z] a.
-  - start sh c a H. sm sh w H 0%nat. sm sh w H 1%nat. df sh hz H 2%nat. finish1 H [x; y; z] a.
+  intros Hh Hd. unfold d2.
+  apply dstep_const with (v := nth (Nat.min d e) a 0 / hs sp (Nat.min d e)).
+  intros j Hj. apply dstep_aff; [exact Hh | rewrite Hj; exact Hd].
 Qed.
-End D3.
 End Sobel.
